@@ -82,11 +82,13 @@ func (s *grpcServer) Initialize(
 			s.logUnary,
 			grpc_prometheus.UnaryServerInterceptor,
 			UnaryFaultInjector(s.faults),
+			s.recoverUnary,
 		),
 		grpc.ChainStreamInterceptor(
 			s.logStream,
 			grpc_prometheus.StreamServerInterceptor,
 			StreamFaultInjector(s.faults),
+			s.recoverStream,
 		),
 		grpc.KeepaliveEnforcementPolicy(keepalive.EnforcementPolicy{
 			// be tolerant of aggressive client keepalives
@@ -167,6 +169,40 @@ func (s *grpcServer) logStream(
 		Uint64("errd", atomic.LoadUint64(&cs.numError)).
 		Msg("stream")
 	return err
+}
+
+// recoverUnary turns a panic in a request handler into an Internal status for
+// that request. Without it a single malformed request (several action
+// constructors panic on out-of-range parameters, and absent nested messages
+// are dereferenced) terminates the whole server process.
+func (s *grpcServer) recoverUnary(
+	ctx context.Context,
+	req interface{},
+	info *grpc.UnaryServerInfo,
+	handler grpc.UnaryHandler,
+) (resp interface{}, err error) {
+	defer func() {
+		if r := recover(); r != nil {
+			s.logger.Error().Interface("panic", r).Str("method", info.FullMethod).Msg("recovered handler panic")
+			resp, err = nil, status.Errorf(codes.Internal, "request handler failed: %v", r)
+		}
+	}()
+	return handler(ctx, req)
+}
+
+func (s *grpcServer) recoverStream(
+	srv interface{},
+	ss grpc.ServerStream,
+	info *grpc.StreamServerInfo,
+	handler grpc.StreamHandler,
+) (err error) {
+	defer func() {
+		if r := recover(); r != nil {
+			s.logger.Error().Interface("panic", r).Str("method", info.FullMethod).Msg("recovered handler panic")
+			err = status.Errorf(codes.Internal, "request handler failed: %v", r)
+		}
+	}()
+	return handler(srv, ss)
 }
 
 type countingStream struct {
